@@ -1411,8 +1411,9 @@ TRUSTED_BASE = ['modelled (not verified) code: pybtex/errors.py (all), exception
                 'the enumeration of report/raise sites and of PybtexError subclasses is an AST walk plus real inputs that reach them: exploration, not proof']
 ASSUMPTIONS = ['between two reports a reader/engine cannot observe the reporting mode (checked syntactically on every run: no module under pybtex/ other than errors.py reads errors.strict / captured_errors / error_code; cmdline.py reads error_code only for the exit status)',
                'str.splitlines breaks exactly at the 10 code points of Model.Errors.is_lb (re-measured per run over all of Unicode)']
-PARTIAL = ['"every problem pybtex detects": the report/raise sites are enumerated from the source and exercised through real inputs by the harness (extra check real_inputs_three_modes); that part is testing',
-           'bytes file names (decoded by pybtex.io._decode_filename) are outside the model']
+PARTIAL = ['"every problem pybtex detects": for the .bib reader, the .aux reader and the .bst parser it is proved (about their validated models of C10/C20/C15) that every error they report or raise is a constructed error and renders, and that the .bib and .aux readers behave in the three modes as the channel model says; for the other sources of problems (interpreter built-ins, names, name formats, plugins, templates, styles, I/O, writer) the report/raise sites are enumerated from the source and exercised through real inputs by the harness (extra check real_inputs_three_modes, functions 10-17): that part is testing',
+           'message texts are not part of the reader models: the reader theorems hold for arbitrary messages; that messages embed user text verbatim is proved for __str__/format_error (err_str_concat) and tested for the message-building sites',
+           'file system encodings other than UTF-8 are outside the model (checked per run)']
 
 # ------------------------------------------------------------------------------------------
 # known findings
